@@ -1377,7 +1377,7 @@ impl Property for C17 {
         let nh = rng.usize(1, 3);
         let hosts: Vec<Vec<String>> = (0..nh).map(|h| host_addrs(rng, h)).collect();
         let unknown = vec!["10.9.9.9".to_string(), "fd00::9:9".to_string()];
-        let cfg = NetCfg { retx_threshold: rng.range(2, 3) as u32, retx_max: rng.range(1, 4) as u32, backlog: 64 };
+        let cfg = NetCfg { retx_threshold: rng.range(2, 3) as u32, retx_max: rng.range(1, 4) as u32, backlog: 64, recv_cap: 0 };
         // range exhaustion is expensive (the kernel scans its bindings per candidate port): one in
         // 4000 scenarios in the thorough tier, three fixed slots (slimmer) in the quick tier
         let exhaustion = (tier == Tier::Thorough && rng.chance(1, 4000)) || (tier == Tier::Quick && idx % 40_000 == 20_000);
